@@ -101,7 +101,7 @@ theorem drcStep_issues : Issues (Only .drc) drcStep := by
 
 theorem installWith_issues (res : List (String × String) → Ref → String) (p c f : List Img) :
     Issues (Only .pkgs) (installWith res p c f) := by
-  unfold installWith installBody listOf applyPkg; repeat' issues_step
+  unfold installWith installBody installApply listOf applyPkg; repeat' issues_step
 
 /-- the TLS programs write secrets only -/
 def SecretOnly (r : Req) : Prop := Only .secrets r
